@@ -209,6 +209,9 @@ func dependsOnCall(v ssa.Value, call *ssa.Call) bool {
 			if b, ok := curBind[x]; ok {
 				return walk(b, d+1)
 			}
+			if a := uniqueCallerArg(x); a != nil {
+				return walk(a, d+1)
+			}
 			return false
 		case *ssa.Alloc:
 			for _, st := range allocStores(x) {
